@@ -59,8 +59,8 @@ func GenRunSpec(procSeed uint64, idx int, pool []*Key, eligible []int) RunSpec {
 	spec := RunSpec{Index: idx, Seed: r.Uint64()}
 	spec.Strategy = strategyNames[r.Pick(strategyWeights)]
 	nt := r.Range(2, 5)
-	if r.Chance(1, 10) {
-		nt = 6
+	if r.Chance(1, 8) {
+		nt = r.Range(6, 8) // many callers: queues behind limits of 2..4 get several waiters
 	}
 	// a small working set of keys so that the same key is observed in several tasks
 	ws := make([]int, r.Range(1, 4))
